@@ -94,7 +94,8 @@ CLAIMS["C03"] = dict(
          "absent/changed/reversed/equal, polygon filters added/removed/"
          "modified, flags, limit), data are reals-or-NaN; z3 proves "
          "filter.all == stateless specification and that the invariant is "
-         "re-established, which covers setting histories of any length.",
+         "re-established, which covers setting histories of any length."
+         " The real PolygonFilter.hash (which Filter.update uses to detect edits) is proved to differ whenever axes, points or the inversion flag differ.",
     note="Trusted: z3, symx, numpy shim, stubs for the dataset/config/"
          "PolygonFilter objects (polygon classification is an uninterpreted "
          "boolean per (filter, version, event); C15 covers it). Bounds: 2 "
@@ -117,7 +118,8 @@ CLAIMS["C06"] = dict(
          "decides whether the cached arguments can differ from those a fresh "
          "dataset uses (2-safety), plus availability <=> reading succeeds "
          "and the documented scenario precedence. Three deliberate sanity "
-         "checks are reported as KNOWN-FINDING.",
+         "checks are reported as KNOWN-FINDING."
+         " Histories also set / replace temporary features (ml_class from temporary ml_score features, emodulus with a temporary temp feature) and check the documented precedence of the temperature sources.",
     note="Trusted: z3, symx, md5-injectivity stub, uninterpreted numeric "
          "kernels (crosstalk inversion is modelled exactly). Feature data "
          "are constant; plugin/ML features and hierarchy children are "
@@ -139,7 +141,8 @@ CLAIMS["C14"] = dict(
          "termination (opening budget), identity (offered feature => chain of "
          "matching, available, permitted hops), isolation (no file-type basin "
          "below a remote dataset), completeness for a direct valid basin and "
-         "absence of escaping exceptions.",
+         "absence of escaping exceptions."
+         " The permission flag is the one the real RTDC_HDF5.__init__ assigns per format name; basin definitions whose declared type contradicts the class of their format must not be followed.",
     note="Trusted: symx, the stub dataset/basin subclasses (format, "
          "availability, _load_dataset). Bounds: 3 (4) files, identifiers "
          "from 6 relation classes. The deciding step here is exhaustive "
@@ -161,7 +164,8 @@ CLAIMS["C17"] = dict(
          "a numpy shim with view/alias semantics: an in-place write to a "
          "result must not change later reads. (iv) LazyContourList index "
          "alignment for symbolic access sequences. (v) key of the file-stat "
-         "lru cache.",
+         "lru cache."
+         " An array argument of symbolic length (0..20000): the byte ranges fed to the hash tile the whole array.",
     note="Trusted: z3, symx, numpy shim aliasing model, md5 injectivity; "
          "functools.lru_cache is modelled as a dict over all arguments. "
          "Bounds as listed in the evidence.",
@@ -178,7 +182,8 @@ CLAIMS["C10"] = dict(
          "kinds (OSError / kill before the operation) the engine checks that "
          "each requested output path is absent or complete and that inputs "
          "are never unlinked, renamed over, truncated, written or opened "
-         "writable (also when the output path aliases an input).",
+         "writable (also when the output path aliases an input)."
+         " Output paths may hold an unloadable leftover before the task starts; exports may emit warnings (split writes a warnings log).",
     note="Trusted: symx, the file-system model and the recording stubs for "
          "h5py.File, RTDCWriter, new_dataset/export, rtdc_copy (each performs "
          "a fixed number of numbered writes on the handle it was given; "
@@ -224,7 +229,8 @@ CLAIMS["C11"] = dict(
          "of user keys, real RTDCWriter.store_metadata -> real "
          "RTDC_HDF5.parse_config round trip over the in-memory h5py "
          "stand-in. CrossHair conditions that time out are reported as "
-         "undecided (obligations > discharged), never as success.",
+         "undecided (obligations > discharged), never as success."
+         " The real load_from_file runs on a text with symbolic letter case of section/key and symbolic digits; sequence-valued [user] metadata of length 1..3 survives the real writer / parse_config.",
     note="Trusted: z3, symx, CrossHair 0.0.110. Strings are bounded to 2-3 "
          "printable ASCII characters; numpy/bytes value representations and "
          "h5py attribute type changes are outside the claim. In the quick "
@@ -245,7 +251,8 @@ CLAIMS["C18"] = dict(
          "offsets (scalar, list, array, HDF5-like container) shift averages "
          "and percentiles one-to-one without raising; crosstalk correction "
          "inverts the modelled spill-over for every non-negative invertible "
-         "matrix.",
+         "matrix."
+         " get_volume wrapper (>= 4 points give a volume; repeating a vertex changes nothing); remove_duplicates == removal of consecutive (circular) duplicates.",
     note="Trusted: z3/nlsat, symx, numpy shim (roll, diff, resize, symbolic "
          "3x3 inverse); np.std/np.percentile are uninterpreted. NOT covered "
          "(not encodable here, see not-applicable parts in DESIGN.md): "
@@ -292,7 +299,8 @@ CLAIMS["C01"] = dict(
          "without a re-opened writer, log lines with symbolic byte lengths "
          "appended to a log of symbolic width. z3 proves: stored sequence == "
          "previous ++ written, index 1..N as uint32, event count, mask "
-         "255/0 round trip, contiguous contour keys, no truncated line.",
+         "255/0 round trip, contiguous contour keys, no truncated line."
+         " Also: replace-mode sessions that store contours twice, log lines with symbolic character AND byte counts (multi-byte text).",
     note="Trusted: z3, symx, the h5py stand-in (validated each run against "
          "real h5py for the append loop). libhdf5 itself, value dtype "
          "casting, compound tables and unicode normalisation are outside.",
@@ -331,7 +339,8 @@ CLAIMS["C07"] = dict(
          "every filter: the stored map equals the selected indices (identity "
          "basins) resp. the original symbolic map restricted to the selected "
          "events (mapped basins) - by induction the composed map of any "
-         "export chain.",
+         "export chain."
+         " Exports of hierarchy children (depth 1..2): the stored basin map equals the root indices of the exported events; summaries offered by a mapped proxy must be those of the mapped events.",
     note="Trusted: z3, symx, origin/dataset stubs, h5py stand-in. Path "
          "resolution, remote basins, identifier checks (C14) and the "
          "innate-over-basin lookup order are outside this check.",
